@@ -142,7 +142,7 @@ def run(ck):
     direct = []   # direct violations reported by replay
 
     # ------------------------------------------------------------ correspondence
-    n_rand = 5000 if thorough else 600
+    n_rand = 3000 if thorough else 300
     kinds = (['witness-bump', 'witness-get', 'witness-getx'] +
              [('clean' if k % 10 < 6 else 'dirty' if k % 10 < 9 else 'oob') for k in range(n_rand)])
     cases = []
@@ -194,20 +194,17 @@ def run(ck):
                'non-trivial = distinct (table, sequence, observation) triples')
 
     terms = [c['term'] for c in cases]
-    # pass 1: the model of the code as it is; pass 2 (only where pass 1 disagrees): the repaired model
-    bad_d, err_d = ck.coq_eval_mismatches(HEADER, 'case18', terms, 'check18d', tag='cased', chunk=100)
-    sub = sorted(set(bad_d))
-    bad_f2, err_f = ck.coq_eval_mismatches(HEADER, 'case18', [terms[i] for i in sub], 'check18f', tag='casef', chunk=100)
-    if err_d or err_f:
-        ck.broken.append('correspondence evaluation failed: ' + ((err_d or '') + (err_f or ''))[:500])
-    bad_d = set(bad_d)
-    # a case that agrees with the current model: does it ALSO agree with the repaired one?  (clean cases do by
-    # history_independent_partial / _fixed; the others are the known history dependence)
-    agree_d = [i for i in range(len(terms)) if i not in bad_d and cases[i]['key'] is not None]
-    bad_f3, err_g = ck.coq_eval_mismatches(HEADER, 'case18', [terms[i] for i in agree_d], 'check18f', tag='caseg', chunk=100)
-    if err_g:
-        ck.broken.append('correspondence evaluation failed: ' + err_g[:500])
-    bad_f = {sub[j] for j in bad_f2} | {agree_d[j] for j in bad_f3}
+    # one pass: every case against the model of the code as it is; the cases that involve a function writing or
+    # returning a captured container also against the repaired model
+    dirty_idx = [i for i, c in enumerate(cases) if c['key'] is not None]
+    both = [f'(false, {t})' for t in terms] + [f'(true, {terms[i]})' for i in dirty_idx]
+    bad, err = ck.coq_eval_mismatches(HEADER, 'bool * case18', both, 'check18x', tag='case', chunk=60)
+    if err:
+        ck.broken.append('correspondence evaluation failed: ' + err[:500])
+    bad_d = {i for i in bad if i < len(terms)}
+    bad_f = {dirty_idx[i - len(terms)] for i in bad if i >= len(terms)}
+    # a clean case (no captured container written or returned) has the same meaning in both models
+    bad_f |= {i for i in bad_d if cases[i]['key'] is None}
     repaired = 0
     for i, c in enumerate(cases):
         rep = {'case': c['term'], 'module': c['module'], 'ops': c['ops'], 'observed': c['obs'],
